@@ -83,7 +83,7 @@ func classifyPanic(msg string) string {
 func runM(pid string, cs []mCase, capMs int) ([]gCase, [][]Failure, map[string]interface{}) {
 	reqs := make([]decReq, len(cs))
 	for i := range cs {
-		reqs[i] = decReq{ID: i, Sid: cs[i].g.Sid, Bytes: cs[i].g.Bytes, PriorSeed: cs[i].seed}
+		reqs[i] = decReq{ID: i, Sid: cs[i].g.Sid, Entry: cs[i].g.Entry, Bytes: cs[i].g.Bytes, PriorSeed: cs[i].seed}
 	}
 	resp := decodeMany(reqs, 12, capMs)
 	out := make([]gCase, len(cs))
@@ -119,7 +119,7 @@ func runM(pid string, cs []mCase, capMs int) ([]gCase, [][]Failure, map[string]i
 		case strings.HasPrefix(r.Obs, "OPanic"):
 			cls = "panic"
 			add("decode/panic/"+classifyPanic(r.Err), "decoding panicked: "+r.Err)
-		case r.Obs == "OErr":
+		case r.Obs == "OErr" || r.Obs == "SlErr":
 			cls = "err"
 		}
 		if pid == "C05" && r.Died == "" && r.Alloc > 256*uint64(len(g.Bytes))+(1<<20) {
@@ -134,6 +134,16 @@ func runM(pid string, cs []mCase, capMs int) ([]gCase, [][]Failure, map[string]i
 		classes[g.Kind+"/"+cls]++
 		if r.Died == "" && !strings.HasPrefix(r.Obs, "OPanic") {
 			switch c.expect {
+			case "slice": // ReadSliceInt8/Uint8(&target, n): all n bytes or an error, nothing of the target's old content
+				n := int(int32(uint32(g.Bytes[0])<<24 | uint32(g.Bytes[1])<<16 | uint32(g.Bytes[2])<<8 | uint32(g.Bytes[3])))
+				payload := g.Bytes[4:]
+				if n < 0 || n > len(payload) {
+					if r.Obs != "SlErr" {
+						add("decode/byte-vector/bad-length-accepted", fmt.Sprintf("%s with length %d on %d bytes succeeded: %s", g.Entry, n, len(payload), trunc200(r.Obs)))
+					}
+				} else if want := fmt.Sprintf("(SlVal %s %d)", hx(payload[:n]), len(payload)-n); r.Obs != want {
+					add("decode/byte-vector/value-differs", fmt.Sprintf("%s with length %d on %d bytes gave %s, expected %s", g.Entry, n, len(payload), trunc200(r.Obs), want))
+				}
 			case "err":
 				if r.Obs != "OErr" {
 					add("decode/"+c.sigHint+"/accepted", "expected an error, decoding succeeded with "+trunc200(r.Obs))
@@ -175,6 +185,9 @@ func runMProp(pid, corr, rule string, a Args, gen func(tier string, rng *rand.Ra
 				ms = make([]mCase, len(cs))
 				for i := range cs {
 					ms[i] = mCase{g: cs[i], expect: "safe"}
+					if cs[i].Kind == "slice" {
+						ms[i].expect = "slice"
+					}
 				}
 			}
 			gs, fails, st := runM(pid, ms, capMs)
@@ -346,6 +359,18 @@ func c06Gen(tier string, rng *rand.Rand) []mCase {
 			}
 		}
 	}
+	// codec.Reader.ReadSliceInt8 / ReadSliceUint8 directly (the generated SimpleList branch calls them with the count from
+	// the wire): every length around 0 and around the bytes left, into a slice that holds other content
+	for _, entry := range []string{"slice-int8", "slice-uint8"} {
+		for plen := 0; plen <= 5; plen++ {
+			payload := make([]byte, plen)
+			rng.Read(payload)
+			for _, n := range []int64{-2147483648, -129, -1, 0, 1, int64(plen) - 1, int64(plen), int64(plen) + 1, int64(plen) + 70000, 2147483647} {
+				bs := append([]byte{byte(uint32(n) >> 24), byte(uint32(n) >> 16), byte(uint32(n) >> 8), byte(uint32(n))}, payload...)
+				cs = append(cs, mCase{g: gCase{Kind: "slice", Entry: entry, Bytes: bs, Note: fmt.Sprintf("%s length %d on %d bytes", entry, n, plen), Class: "slice/" + entry}, expect: "slice"})
+			}
+		}
+	}
 	return cs
 }
 
@@ -481,7 +506,7 @@ func c04Gen(tier string, rng *rand.Rand) []mCase {
 func init() {
 	props["C06"] = func(a Args) {
 		runMProp("C06", "Corr.dec_check (decode = generated ReadFrom on truncated / inflated / mistyped encodings: same outcome class and value)",
-			"valid encodings of random values of every generated struct type, then: every proper prefix (all when <= 24 bytes (thorough 120), else sampled incl. cuts inside heads, lengths and bodies) judged against the decode of the complete leading fields; every embedded string length and list/map/simple-list count inflated beyond what remains (+1, +65536/+40000) and every count replaced by a negative one (-1, -32768, -2^31); top-level members replaced by a well-formed field of an inadmissible wire type; class = (mutation kind, struct type)",
+			"valid encodings of random values of every generated struct type, then: every proper prefix (all when <= 24 bytes (thorough 120), else sampled incl. cuts inside heads, lengths and bodies) judged against the decode of the complete leading fields; every embedded string length and list/map/simple-list count inflated beyond what remains (+1, +65536/+40000) and every count replaced by a negative one (-1, -32768, -2^31); top-level members replaced by a well-formed field of an inadmissible wire type; codec.Reader.ReadSliceInt8/Uint8 called directly with lengths -2^31..2^31-1 around 0 and the bytes left, into a slice holding other content; class = (mutation kind, struct type)",
 			a, c06Gen, 10000)
 	}
 	props["C04"] = func(a Args) {
